@@ -26,7 +26,7 @@ RUN_TIMEOUT = 600.0
 RULE = ("seeded annotated networks with 1-3 topologies (cliques 2-4, 4-/5-cycles, names such as '2-clique-blue'): clean "
         "motif networks from a direct constructor (4..40 vertices) or outputs of the real network generator under "
         "scheduled shuffles (self-loops removed), plus ONE network of ~6e5-7e5 edges (complete graph on 1100-1200 vertices with pendant "
-        "vertices) per invocation; stray string-keyed attributes ('topology', 'joint_degree', ...) with generic values or with the "
+        "vertices, per-topology AND overall-degree extraction) per invocation; stray string-keyed attributes ('topology', 'joint_degree', ...) with generic values or with the "
         "scenario's own topology names as values; 30% of the networks rebuilt with another vertex INSERTION order (reversed / shuffled / edges "
         "first) and other labels (offset, mirrored, with gaps); vertex annotations stored as tuples, as lists, or as lists and tuples SIDE BY SIDE in one network; "
         "30% of the topology lists contain a motif type whose edges carry two topology names under one motif id (diamond rim + "
